@@ -309,6 +309,12 @@ func jobsFor(prop, tier string) []*Job {
 		add(&Job{Name: fmt.Sprintf("O2-metrics/k=%d", k), Pkg: "memmetrics", Harness: "VerifC18Metrics", Grid: 1e9, Params: p("k", k, "t0span", 40), TimeoutS: 120, MergeBlind: true,
 			Merge: map[string]bool{"(*github.com/vulcand/oxy/v2/memmetrics.RollingCounter).cleanup": true, "(*github.com/vulcand/oxy/v2/memmetrics.RollingCounter).incBucketValue": true},
 			Bounds: fmt.Sprintf("%d Record calls with symbolic status codes in [100,599] at one instant (symbolic within a window covering every bucket residue), then the ratios and Reset", k)})
+		hb, hk := 3, 5
+		if thorough {
+			hb, hk = 6, 9
+		}
+		add(&Job{Name: fmt.Sprintf("O6-trip-clears-latency-window/buckets=%d,k=%d", hb, hk), Pkg: "memmetrics", Harness: "VerifC18HistReset", Grid: 1e9, Params: p("k", hk, "buckets", hb, "t0span", 3), TimeoutS: 60,
+			Bounds: fmt.Sprintf("rolling latency histogram with %d tables of 10 s (HDR tables replaced by ghost sample counts): %d records, a rotation period passing or not before each (symbolic), then Reset directly or through RTMetrics.Reset: merged window empty, a later sample is the only one", hb, hk)})
 		add(&Job{Name: "O5-stalled-arrival", Pkg: "cbreaker", Harness: "VerifC05Stall", TimeoutS: 60, Bounds: stallBd})
 		add(&Job{Name: "O4-overlapping-completions", Pkg: "cbreaker", Harness: "VerifC18Overlap", TimeoutS: 60,
 			Bounds: "two concurrent requests from standby: the second runs to completion at any one lock boundary of the first (two-thread sequentialisation, one preemption, scheduling points = mutex acquire/release), symbolic clock movement, durations and condition outcomes: effects once per transition, one metrics reset per trip"})
